@@ -478,10 +478,20 @@ class Extractor:
                     self.out.emit_src(src, k, "%slet mut r7_i: usize = %s; let r7_n: usize = %s;" % (ind, a, b))
                     self.out.emit_src(src, k, "%swhile r7_i < r7_n" % ind)
                     inv = inv + f.get("loops_r7", {}).get(n, [])
-                    for il in inv:
-                        if il.strip():
-                            self.out.emit(il)
-                            self.hit("I4.contract_lines")
+                    # invariants written for the `for` form speak about the loop variable; at the head of
+                    # the while form its role is played by r7_i.  The bound and the termination measure of
+                    # the while form are added mechanically.
+                    inv = [re.sub(r"\b%s\b" % re.escape(x), "r7_i", il) for il in inv if il.strip()]
+                    body = [il for il in inv if not il.strip().startswith("invariant")
+                            and not il.strip().startswith("decreases")]
+                    decr = [il for il in inv if il.strip().startswith("decreases")]
+                    self.out.emit("%s    invariant" % ind)
+                    self.out.emit("%s        r7_i <= r7_n, r7_n == (%s)," % (ind, b))
+                    for il in body:
+                        self.out.emit(il if il.rstrip().endswith(",") else il.rstrip() + ",")
+                        self.hit("I4.contract_lines")
+                    for il in (decr or ["%s    decreases r7_n - r7_i" % ind]):
+                        self.out.emit(il)
                     self.out.emit_src(src, k, "%s{ let %s = r7_i; r7_i = r7_i + 1;" % (ind, x))
                 else:
                     col = bo - src.starts[k]
